@@ -932,12 +932,23 @@ func (db *DB) initDatabaseFile() error {
 	hdr, _, err := readSQLiteDatabaseHeader(f)
 	if err == io.EOF {
 		log.Printf("database file is zero length on initialization: %s", db.DatabasePath())
+
+		// The header read before recovery may have belonged to a transaction
+		// that has just been rolled back (e.g. a crash while the database was
+		// being created in WAL mode); an empty database has no mode or size.
+		db.pageN.Store(0)
+		db.mode.Store(DBModeRollback)
 		return nil // no contents yet
 	} else if err != nil {
 		return fmt.Errorf("cannot read database header: %w", err)
 	}
 	db.pageSize = hdr.PageSize
 	db.pageN.Store(hdr.PageN)
+	if hdr.WriteVersion == 2 && hdr.ReadVersion == 2 {
+		db.mode.Store(DBModeWAL)
+	} else {
+		db.mode.Store(DBModeRollback)
+	}
 
 	assert(db.pageSize > 0, "page size must be greater than zero")
 
